@@ -104,10 +104,10 @@ func TestVerifC09StressSingle(t *testing.T) {
 	c09Stress(t, "stress-single", []uint64{2}, []uint64{4, 5}, 3)
 }
 
-// TestVerifC09StressNarrow: many more loaded epochs (up to 7) than the epoch search may run at once (1):
+// TestVerifC09StressNarrow: three stable epochs with address indexes, many more loaded epochs (up to 8) than the epoch search may run at once (1):
 // the search has to queue its per-epoch jobs and still complete.
 func TestVerifC09StressNarrow(t *testing.T) {
-	c09Stress(t, "stress-narrow", []uint64{2, 9}, []uint64{3, 4, 5, 6, 7}, 1)
+	c09Stress(t, "stress-narrow", []uint64{2, 8, 9}, []uint64{3, 4, 5, 6, 7}, 1)
 }
 
 func c09Stress(t *testing.T, part string, stableNums, churnNums []uint64, searchConc int) {
@@ -151,7 +151,13 @@ func c09Stress(t *testing.T, part string, stableNums, churnNums []uint64, search
 	}
 	cache := vfNewCache()
 	multi := NewMultiEpoch(&Options{EpochSearchConcurrency: searchConc})
-	for _, fx := range fxs {
+	// (not in ascending order: the server loads its epochs concurrently, so the epoch map is filled in an
+	// arbitrary order - and the iteration order of a small Go map is a rotation of its insertion order)
+	loadOrder := append([]*vfEpochFx{}, fxs...)
+	if len(loadOrder) > 1 {
+		loadOrder[0], loadOrder[1] = loadOrder[1], loadOrder[0]
+	}
+	for _, fx := range loadOrder {
 		ep, err := fx.vfLoad(cache)
 		if err != nil {
 			t.Fatal(err)
@@ -267,18 +273,57 @@ func c09Stress(t *testing.T, part string, stableNums, churnNums []uint64, search
 					case 1:
 						multi.CountEpochs()
 					case 2:
+						e, err := multi.GetMostRecentAvailableEpoch()
 						if !newestStable {
+							// the newest epoch flaps, but some epoch is loaded at every moment: an answer, and one
+							// that is not older than the newest stable epoch
+							if err != nil || !allowed[e.Epoch()] || e.Epoch() < stableNums[len(stableNums)-1] {
+								rec.Violation("MultiEpoch.GetMostRecentAvailableEpoch/wrong", fmt.Sprintf("got %v err %v although epoch %d is loaded throughout", e, err, stableNums[len(stableNums)-1]), state)
+							}
+							// (getSlot itself is not issued here: the flapping newest epoch is a file-less one)
 							break
 						}
-						if e, err := multi.GetMostRecentAvailableEpoch(); err != nil || e.Epoch() != stableNums[len(stableNums)-1] {
+						if err != nil || e.Epoch() != stableNums[len(stableNums)-1] {
 							rec.Violation("MultiEpoch.GetMostRecentAvailableEpoch/wrong", fmt.Sprintf("got %v err %v, the newest loaded epoch is %d", e, err, stableNums[len(stableNums)-1]), state)
 						}
 					case 3:
+						e, err := multi.GetOldestAvailableEpoch()
 						if !oldestStable {
+							if err != nil || !allowed[e.Epoch()] || e.Epoch() > stableNums[0] {
+								rec.Violation("MultiEpoch.GetOldestAvailableEpoch/wrong", fmt.Sprintf("got %v err %v although epoch %d is loaded throughout", e, err, stableNums[0]), state)
+							}
 							break
 						}
-						if e, err := multi.GetOldestAvailableEpoch(); err != nil || e.Epoch() != stableNums[0] {
+						if err != nil || e.Epoch() != stableNums[0] {
 							rec.Violation("MultiEpoch.GetOldestAvailableEpoch/wrong", fmt.Sprintf("got %v err %v, the oldest loaded epoch is %d", e, err, stableNums[0]), state)
+						}
+						// the address-index readers the multi-epoch queries walk: newest first, reader i serves epoch i
+						rds, nums := multi.getGsfaReadersInEpochDescendingOrder()
+						okR := len(rds) == len(nums)
+						seenG := map[uint64]bool{}
+						for i := range nums {
+							if i > 0 && nums[i-1] <= nums[i] {
+								okR = false
+							}
+							seenG[nums[i]] = true
+							if okR {
+								if ge, ok := rds[i].GetEpoch(); !ok || ge != nums[i] {
+									okR = false
+								}
+							}
+						}
+						for e := range stableSet {
+							if !seenG[e] {
+								okR = false
+							}
+						}
+						if !okR {
+							var ges []uint64
+							for _, rd := range rds {
+								ge, _ := rd.GetEpoch()
+								ges = append(ges, ge)
+							}
+							rec.Violation("MultiEpoch.getGsfaReadersInEpochDescendingOrder/inconsistent", fmt.Sprintf("epoch numbers %v, readers serve %v (stable epochs with an address index: %v)", nums, ges, stableNums), state)
 						}
 					case 4:
 						multi.GetMostRecentAvailableEpochNumber()
